@@ -246,3 +246,29 @@ def sinks_after(b, alloc_bb):
                     if k in flds:
                         out[k].append(i)
     return out
+
+
+def visits_all_except_equal(b, crate, loop):
+    """Like visits_all, but one `filter(|x| x != <captured value>)` in front of the loop is accepted: it is the same skip as an
+    `if x == locked { continue }` at the top of the body."""
+    if early_exits(b, loop):
+        return False
+    ads = set(loop_adaptors(b, loop)) & PARTIAL_ADAPTORS
+    if not ads:
+        return True
+    if ads != {"filter"}:
+        return False
+    locs = q.slice_locals(b, b.blocks[loop[2]]["term"]["args"][0])
+    n = 0
+    for i, j, s_ in b.assigns():
+        r = s_["r"]
+        if r["k"] == "agg" and r.get("ak") == "closure" and s_["p"]["l"] in locs:
+            cb = crate.by_path.get(r["def"])
+            if cb is None:
+                return False
+            n += 1
+            names = [t["f"]["name"] for ii, t in cb.calls() if t.get("f")]
+            bins = [x["r"]["op"] for ii, jj, x in cb.assigns() if x["r"]["k"] == "bin"]
+            if not ((names == ["ne"] and not bins) or (not names and bins == ["Ne"])):
+                return False
+    return n == 1
